@@ -95,10 +95,11 @@ PROFILES = {
     "rejects": dict(
         property="C14",
         oracles=["O14"],
-        weights=_w(reject=14, mutate=6, mutate_w=2, group_by=4, summarize=3, join=3, alias=3, ref=8, select=4, drop=3, rename=3, transfer=2, collect=1),
+        weights=_w(reject=14, mutate=6, mutate_w=4, group_by=5, summarize=4, join=3, alias=3, ref=8, select=4, drop=3, rename=3, transfer=2, collect=1, expr=3),
         mutate_names=[4, 4, 2, 0],
-        mutate_kinds=EW,
-        window_kinds=WIN,
+        mutate_kinds=dict(EW, pool=2),
+        window_kinds=dict(WIN, pool=5),
+        summarize_kinds=dict(agg=3, pool=3),
         crash_subjects={},
         core_ops=("src", "reject", "mutate"),
     ),
